@@ -8,6 +8,8 @@ import (
 
 	"github.com/tokenized/pkg/bitcoin"
 	"github.com/tokenized/pkg/wire"
+	"github.com/tokenized/spynode/internal/platform/config"
+	"github.com/tokenized/spynode/internal/spynode"
 	"github.com/tokenized/spynode/internal/verif/core"
 )
 
@@ -21,6 +23,7 @@ type c04Task struct {
 	Seen    string `json:"seen"`     // none | all | alt : which relevant txs were delivered unconfirmed before
 	Corrupt string `json:"corrupt"`  // "" | drop:i | insert:i | swap:i:j | alter:i
 	Syncing bool   `json:"syncing"`  // corrupted block served during the initial sync (node not in sync yet)
+	Direct  bool   `json:"direct"`   // corrupted block handed straight to the exported Node.ProcessBlock of a loaded, not yet running node
 }
 
 type c04Result struct {
@@ -103,7 +106,61 @@ func c04Syncing(t c04Task) c04Result {
 	return res
 }
 
+// c04Direct: the block processing entry point itself (exported Node.ProcessBlock) on a loaded node
+// that is not in sync: a corrupted body must not extend the chain or notify anything.
+func c04Direct(t c04Task) c04Result {
+	var res c04Result
+	ctx := core.Ctx()
+	st := core.NewRecStore(true)
+	genesis := core.GenesisHeader()
+	cfg := config.Config{Net: bitcoin.MainNet, StartHash: *genesis.BlockHash()}
+	w := &World{TxNames: map[bitcoin.Hash32]string{}, Txs: map[string]*wire.MsgTx{}, Tree: newTree()}
+	w.fetcher = &fetcher{w}
+	node := spynode.NewNode(cfg, st, w.fetcher, w.fetcher)
+	rec := &recorder{w: w}
+	w.H[0] = rec
+	node.RegisterHandler(rec)
+	node.SubscribePushDatas(ctx, [][]byte{subKey[:]})
+	if err := node.AddPeer(ctx, "10.0.0.9:8333", 1); err != nil {
+		res.Violations = append(res.Violations, core.Violation{Property: "C04", Clause: "load", Class: "node does not load", Detail: err.Error()})
+		return res
+	}
+	var txs []*wire.MsgTx
+	for i := 1; i < t.N; i++ {
+		txs = append(txs, c04Tx(i, t.RelMask&(1<<uint(i)) != 0))
+	}
+	good := core.MakeBlock(*genesis.BlockHash(), 1, 77, txs)
+	bad := corruptBlock(good, t.Corrupt)
+	ids := make([]bitcoin.Hash32, len(bad.Transactions))
+	for i, x := range bad.Transactions {
+		ids[i] = *x.TxHash()
+	}
+	if core.IndependentMerkleRoot(ids) == good.Header.MerkleRoot {
+		res.Outcome = "corruption keeps the root (not asserted)"
+		return res
+	}
+	var err error
+	pv := guard(func() { err = node.ProcessBlock(ctx, bad) })
+	fail := func(clause, class, detail string) {
+		res.Violations = append(res.Violations, core.Violation{Property: "C04", Clause: clause, Class: class, Detail: detail, Witness: map[string]interface{}{"task": t}})
+	}
+	if pv != nil {
+		fail("panic", "ProcessBlock panics on a corrupted body", fmt.Sprint(pv))
+	}
+	if h := node.LastHeight(ctx); h != 0 {
+		fail("bad-merkle-rejected", "chain advanced on a block whose txs do not hash to the header's root ("+corruptKind(t.Corrupt)+", direct ProcessBlock)", fmt.Sprintf("ProcessBlock(%s) returned %v and the height is %d", t.Corrupt, err, h))
+	}
+	if len(rec.events) > 0 {
+		fail("bad-merkle-nothing-delivered", "callback from a bad-merkle block ("+corruptKind(t.Corrupt)+", direct ProcessBlock)", fmt.Sprintf("%d callbacks, first %s", len(rec.events), rec.events[0].Kind))
+	}
+	res.Outcome = "corrupt " + corruptKind(t.Corrupt) + " direct"
+	return res
+}
+
 func c04Exec(t c04Task) c04Result {
+	if t.Direct {
+		return c04Direct(t)
+	}
 	if t.Syncing {
 		return c04Syncing(t)
 	}
@@ -326,6 +383,9 @@ func runC04() int {
 		if n >= 2 && n <= corrN {
 			all := uint32(1<<uint(n)) - 2
 			for i := 0; i < n; i++ {
+				add(c04Task{N: n, RelMask: all, Corrupt: fmt.Sprintf("drop:%d", i), Direct: true})
+				add(c04Task{N: n, RelMask: all, Corrupt: fmt.Sprintf("alter:%d", i), Direct: true})
+				add(c04Task{N: n, RelMask: all, Corrupt: fmt.Sprintf("insert:%d", i), Direct: true})
 				add(c04Task{N: n, RelMask: all, Corrupt: fmt.Sprintf("drop:%d", i), Syncing: true})
 				add(c04Task{N: n, RelMask: all, Corrupt: fmt.Sprintf("alter:%d", i), Syncing: true})
 				if i+1 < n {
@@ -363,7 +423,7 @@ func runC04() int {
 	rep.Coverage["traces_validated_against_impl"] = execs
 	rep.Coverage["evaluations"] = execs
 	rep.Coverage["distinct_nontrivial"] = len(rep.Outcomes)
-	rep.Coverage["rule"] = fmt.Sprintf("bounded-exhaustive enumeration through the real path (in-sync Node.Run, peer announces and serves one block): block sizes 1..%d, every subset of relevant positions for n<=%d and all singletons/pairs above, relevant txs previously delivered (all / none / alternating); corrupted bodies (drop i, insert at i, swap i/j, alter i) under an unchanged header for n<=%d, served both while in sync and during the initial sync, only where the independently computed root differs from the header. Oracle: independent merkle path verifier against the header at that height, true index, depth 0, new vs update kind; corrupted: height unchanged, nothing delivered.", maxN, fullN, corrN)
+	rep.Coverage["rule"] = fmt.Sprintf("bounded-exhaustive enumeration through the real path (in-sync Node.Run, peer announces and serves one block): block sizes 1..%d, every subset of relevant positions for n<=%d and all singletons/pairs above, relevant txs previously delivered (all / none / alternating); corrupted bodies (drop i, insert at i, swap i/j, alter i) under an unchanged header for n<=%d, served while in sync, during the initial sync, and handed directly to Node.ProcessBlock of a loaded node, only where the independently computed root differs from the header. Oracle: independent merkle path verifier against the header at that height, true index, depth 0, new vs update kind; corrupted: height unchanged, nothing delivered.", maxN, fullN, corrN)
 	rep.Assumptions = append(peerAssumption, "duplicate-tail merkle malleability (corruptions that keep the root) is not asserted")
 	return rep.Finish()
 }
